@@ -31,6 +31,7 @@ var sizeShapes = []sizeShape{
 	{name: "value on a branch node (its path is a proper prefix of another)", big: "aa", rest: []string{"aaab", "aab0"}},
 	{name: "leaf with a 1-character path under a deep branch", big: h64a, rest: []string{h64b}},
 	{name: "leaf with an empty path under a branch", big: "aaab", rest: []string{"aaaa", "aaac"}},
+	{name: "value on a branch with all 16 children", big: "aa", rest: []string{"aa0a", "aa1a", "aa2a", "aa3a", "aa4a", "aa5a", "aa6a", "aa7a", "aa8a", "aa9a", "aaaa", "aaba", "aaca", "aada", "aaea", "aafa"}},
 	{name: "single leaf, 80-character path", big: h64a + "0123456789abcdef"},
 	{name: "130-character path next to one differing in its last character", big: h64a + h64a + "a1", rest: []string{h64a + h64a + "a2"}},
 }
